@@ -17,6 +17,7 @@ import DateutilVerif.Proofs.RRuleMinutelyBy
 import DateutilVerif.Proofs.RRuleDailyW
 import DateutilVerif.Proofs.RRuleMonthlyW
 import DateutilVerif.Proofs.RRuleMinutelyBH
+import DateutilVerif.Proofs.RRuleSecondlyBS
 
 namespace RRule
 open Cal
@@ -38,6 +39,12 @@ theorem wArgOk_elim (h : wArgOk a) : WArg a := by
   · exact Or.inl h
   · obtain ⟨wl, hwl, hne, hok⟩ := someWith_elim h1
     exact Or.inr ⟨wl, hwl, hne, ⟨hok.1, hok.2⟩, h2, h3⟩
+
+theorem optNonempty_elim {o : Option (List Int)} (h : optNonempty o) : o = none ∨ ∃ l, o = some l ∧ l ≠ [] := by
+  rcases h with h | h
+  · exact Or.inl h
+  · obtain ⟨l, hl, hne, _⟩ := someWith_elim h
+    exact Or.inr ⟨l, hl, hne⟩
 
 theorem family_sound (f : Family) (h : family a = some f) : SupportedBy a f := by
   unfold family at h
@@ -111,5 +118,15 @@ theorem iter_eq_spec_supported (a : Args) (r : Rule) (h : construct a = .ok r) (
   | secondly =>
     obtain ⟨hf, ⟨hi, hv, hz⟩, h1, h2, h3, h4, h5⟩ := hs
     exact iter_eq_spec_secondly ⟨hf, hi, hv, wArgOk_elim h1, h2, hz, h3, h4, h5⟩ h n hr
+  | secondlyByhm =>
+    obtain ⟨hf, ⟨hi, hv, hz⟩, h1, h2, h3, h4, h5, h6⟩ := hs
+    exact iter_eq_spec_secondly_bhm ⟨hf, hi, hv, wArgOk_elim h1, h2, hz, optNonempty_elim h3, optNonempty_elim h4, h5, h6⟩ h n hr
+  | secondlyBysecond =>
+    obtain ⟨hf, ⟨hi, hv, hz⟩, h1, h2, h3, h4, h5, h6⟩ := hs
+    have hs5 : ∃ l, a.bysecond = some l := by
+      cases hb : a.bysecond with
+      | none => exact absurd hb h5
+      | some l => exact ⟨l, rfl⟩
+    exact iter_eq_spec_secondly_bysecond ⟨hf, hi, hv, wArgOk_elim h1, h2, hz, optNonempty_elim h3, optNonempty_elim h4, hs5, h6⟩ h n hr
 
 end RRule
